@@ -1457,9 +1457,13 @@ impl HashColumn {
 					table.validate_plan(record.index, log)?;
 				} else {
 					if record.table.index_bits() < tables.index.id.index_bits() {
-						// Insertion into a previously dropped index.
-						log::warn!( target: "parity-db", "Index {} is too old. Current is {}", record.table, tables.index.id);
-						return Err(Error::Corruption("Unexpected log index id".to_string()))
+						// Write into a previously dropped index: the record was enacted before
+						// the drop and its log file is still around. Every entry of a dropped
+						// index has been copied to a newer one, so skip it as `enact_plan` does.
+						// Rejecting it here would discard all later records as well.
+						log::debug!( target: "parity-db", "Index {} is too old. Current is {}. Skipped", record.table, tables.index.id);
+						IndexTable::skip_plan(log)?;
+						return Ok(())
 					}
 					if record.table.index_bits() > MAX_INDEX_BITS {
 						return Err(Error::Corruption("Bad log index id".to_string()))
